@@ -67,7 +67,7 @@ def run(ctx):
     fieldnames_rule(ctx)
 
 
-def fieldnames_rule(ctx):
+def fieldnames_rule(ctx, adt='Record', rule='FIELDNAMES', key='one-position-per-name', elem='String'):
     """the record's name -> position table, which the serializer finds a presented field with, holds ONE position per
     name: where it is built (freeze) every insertion is checked and a name met twice is an error.  Collecting
     (name, position) pairs keeps the last position for a repeated name while the in-order fast path takes the first
@@ -76,23 +76,46 @@ def fieldnames_rule(ctx):
     from .c03 import fn_by_label
     tf = fn_by_label(f, '<schema::self_referential::Schema as core::convert::TryFrom>::try_from')
     if tf is None:
-        ctx.ob('FIELDNAMES', 'anchor', False, None, 'freeze not found')
+        ctx.ob(rule, 'anchor', False, None, 'freeze not found')
         return
     ctx.touched(tf)
-    ok, det = False, 'no Record aggregate with a per_name_lookup found in freeze'
+    ok, det = False, 'no %s aggregate with a per_name_lookup found in freeze' % adt
     fam = [tf] + f.closures_of(tf)
     for b in fam:
         for bb in sorted(b.live_blocks()):
             if b.is_cleanup(bb):
                 continue
             for s_ in b.stmts(bb):
-                if 'assign' in s_ and s_['rv']['k'] == 'agg' and (s_['rv'].get('adt') or '').endswith('self_referential::Record') and 'per_name_lookup' in (s_['rv'].get('fields') or []):
+                if 'assign' in s_ and s_['rv']['k'] == 'agg' and (s_['rv'].get('adt') or '').endswith('self_referential::' + adt) and 'per_name_lookup' in (s_['rv'].get('fields') or []):
                     o = origin(b, s_['rv']['ops'][s_['rv']['fields'].index('per_name_lookup')])
                     collected = any((c.get('callee') or '').endswith(('Iterator::collect', 'FromIterator::from_iter', 'Extend::extend')) for c in o.calls)
                     checked = False
+                    # the map that ends up in the aggregate: follow whole-value moves back from the operand
+                    mp = op_place(s_['rv']['ops'][s_['rv']['fields'].index('per_name_lookup')])
+                    maps = set()
+                    todo_ = [mp['l']] if mp is not None and not mp.get('p') else []
+                    while todo_:
+                        l_ = todo_.pop()
+                        if l_ in maps:
+                            continue
+                        maps.add(l_)
+                        for d_ in b.defs().get(l_, []):
+                            if d_[2] == 'assign' and d_[3].get('k') == 'use' and op_place(d_[3]['op']) and not op_place(d_[3]['op']).get('p'):
+                                todo_.append(op_place(d_[3]['op'])['l'])
+
+                    def on_that_map(x, it):
+                        if x is not b:
+                            return False
+                        rp = op_place(it['args'][0])
+                        if rp is None:
+                            return False
+                        for d_ in x.defs().get(rp['l'], []):
+                            if d_[2] == 'assign' and d_[3].get('k') == 'ref' and d_[3]['place'].get('l') in maps:
+                                return True
+                        return False
                     for x in fam:
                         for ib, it in x.calls():
-                            if cname(it).endswith('HashMap::<K, V, S, A>::insert') and not x.is_cleanup(ib) and 'String' in ' '.join(it.get('arg_tys', [])[1:2]):
+                            if cname(it).endswith('HashMap::<K, V, S, A>::insert') and not x.is_cleanup(ib) and 'String' in ' '.join(it.get('arg_tys', [])[1:2]) and on_that_map(x, it):
                                 # the Option it returns is looked at and Some => Err
                                 for cb2, ct in x.calls():
                                     if strip_generics(cname(ct)).endswith(('Option::is_some', 'Option::is_none')) and any(c is it for c in origin(x, ct['args'][0]).calls):
@@ -109,7 +132,7 @@ def fieldnames_rule(ctx):
                                             checked = checked or (sb is not None and all_paths_err(x, sb))
                     ok = not collected and checked
                     det = 'per_name_lookup collected from (name, position) pairs (a repeated name keeps its last position): %s; built by insertions whose "already there" answer returns Err: %s' % (collected, checked)
-    ctx.ob('FIELDNAMES', 'one-position-per-name', ok, short_loc(tf.span), det)
+    ctx.ob(rule, key, ok, short_loc(tf.span), det)
 
 
 def pair_positions(body_or_tys, facts):
